@@ -1,6 +1,7 @@
 #![allow(dead_code, unused_variables, unused_imports)]
 mod checks_c12;
 mod checks_e1;
+mod checks_http;
 mod dump;
 mod e1;
 mod evidence;
@@ -44,6 +45,8 @@ fn engine_shard(id: &str, tier: &str, seed: u64, replay: Option<&serde_json::Val
         return checks_e1::shard_run(&plan, seed, replay_case, shard);
     }
     match id {
+        "C15" | "C20" => checks_http::shard_run_grammar(id, tier, seed, replay_case, shard),
+        "C16" => checks_http::shard_run_c16(tier, seed, replay_case, shard),
         "C12" => {
             let plan = checks_e1::plan_for("C12H", tier).unwrap();
             let mut out = ShardOut::default();
@@ -68,6 +71,8 @@ fn engine_finalize(id: &str, tier: &str, seed: u64, out: ShardOut, is_replay: bo
         return checks_e1::finalize(&plan, seed, out, is_replay);
     }
     match id {
+        "C15" | "C20" => checks_http::finalize_grammar(id, tier, out, is_replay),
+        "C16" => checks_http::finalize_c16(out, is_replay),
         "C12" => {
             let plan = checks_e1::plan_for("C12H", tier).unwrap();
             checks_e1::finalize(&plan, seed, out, is_replay)
